@@ -18,7 +18,7 @@ def srcJson (fs : Files) (rootData : Option Json) (src : String) : Option Json :
   if src = "" then rootData else (fs.find? (·.1 = src)).map (·.2)
 
 /-- the nodes a step makes necessary: the walked document, and the target object with its subtree -/
-def needed (fs : Files) (rootData : Option Json) (cx : Cx) (n : CNode) : List CNode × List Cx :=
+def needed (fs : Files) (rootData : Option Json) (tabs : Tabs) (cx : Cx) (n : CNode) : List CNode × List Cx :=
   match n.ref with
   | none => ([], [])
   | some t =>
@@ -29,7 +29,7 @@ def needed (fs : Files) (rootData : Option Json) (cx : Cx) (n : CNode) : List CN
          | none => []
        | none => []
     let docCx := match dl with | some d => [⟨some d, some d⟩] | none => []
-    match stepGo fs rootData cx t n.kind with
+    match stepGo fs rootData tabs cx t n.kind with
     | .node cont home src ptr typed _ =>
       (docNodes ++
       (match (srcJson fs rootData src).bind (fun j => rawAt j ptr) with
@@ -41,15 +41,15 @@ def needed (fs : Files) (rootData : Option Json) (cx : Cx) (n : CNode) : List CN
 def dedup [BEq α] (l : List α) : List α := l.foldl (fun acc x => if acc.contains x then acc else acc ++ [x]) []
 
 /-- closure of objects and contexts: every reference object is evaluated in every context that occurs -/
-def close (fs : Files) (rootData : Option Json) : Nat → List CNode → List Cx → List CNode × List Cx
+def close (fs : Files) (rootData : Option Json) (tabs : Tabs) : Nat → List CNode → List Cx → List CNode × List Cx
   | 0, ns, cxs => (ns, cxs)
   | f + 1, ns, cxs =>
     let (ns', cxs') := ns.foldl (fun (acc : List CNode × List Cx) n =>
       if n.ref.isNone then acc else
       cxs.foldl (fun (acc : List CNode × List Cx) cx =>
-        let (nn, nc) := needed fs rootData cx n
+        let (nn, nc) := needed fs rootData tabs cx n
         (addNodes acc.1 nn, dedup (acc.2 ++ nc))) acc) (ns, cxs)
-    if ns'.length = ns.length && cxs'.length = cxs.length then (ns, cxs) else close fs rootData f ns' cxs'
+    if ns'.length = ns.length && cxs'.length = cxs.length then (ns, cxs) else close fs rootData tabs f ns' cxs'
 
 structure Built where
   nodes : List CNode
@@ -65,8 +65,8 @@ def findObj (nodes : List CNode) (home : Cx) (src : String) (ptr : List String) 
   let i := nodes.findIdx (fun m => m.cx == home && m.src == src && m.ptr == ptr && m.kind == k && m.copy == cp)
   if i < nodes.length then some i else none
 
-def build (fs : Files) (rootData : Option Json) (rootCx : Cx) (rootSrc : String) (rootJ : Json) : Built :=
-  let (nodes0, cxs) := close fs rootData 24 (enumDoc rootCx rootSrc rootJ) [rootCx]
+def build (fs : Files) (rootData : Option Json) (tabs : Tabs) (rootCx : Cx) (rootSrc : String) (rootJ : Json) : Built :=
+  let (nodes0, cxs) := close fs rootData tabs 24 (enumDoc rootCx rootSrc rootJ) [rootCx]
   -- a resolver works on a local copy of a target that is itself a reference
   let nodes := nodes0 ++ (nodes0.filter (fun n => n.ref.isSome)).map (fun n => { n with copy := true })
   let texts := dedup (nodes.filterMap (·.ref))
@@ -77,7 +77,7 @@ def build (fs : Files) (rootData : Option Json) (rootCx : Cx) (rootSrc : String)
         orig := if m.copy then findObj nodes m.cx m.src m.ptr m.kind false else none })
   let step (l : Loc) (t : Text) (k : Kind) : Option StepR :=
     match cxs[l]?, texts[t]? with
-    | some c, some tx => some (stepGo fs rootData c tx k)
+    | some c, some tx => some (stepGo fs rootData tabs c tx k)
     | _, _ => none
   let w : World := {
     nodes := table,
@@ -156,7 +156,8 @@ def handle (j : Json) : Json :=
   let rootData : Option Json := if isData then some rootJ else none
   let rootCx : Cx := if isData then ⟨none, none⟩ else ⟨some root, some root⟩
   let rootSrc := if isData then "" else storeKey root
-  let b := build fs rootData rootCx rootSrc rootJ
+  let tabs := mkTabs fs rootData
+  let b := build fs rootData tabs rootCx rootSrc rootJ
   let w := b.world
   -- fuel: the bound of `load_terminates` ((#texts + 1) · (R + 1)); rank of an object = R − depth of its pointer
   -- (the children of a value lie strictly deeper), R = the deepest pointer
@@ -169,17 +170,22 @@ def handle (j : Json) : Json :=
     | .err fg => ("err", [], 0, fg, 0, 0, 0)
     | .outOfFuel => ("outOfFuel", [], 0, false, 0, 0, 0)
   -- specification
-  let specRefs := specWalk fs rootData 4000
+  let specRefs := specWalk fs rootData tabs 4000
     ((specDocChildren rootJ).map (fun c => ((if isData then none else some (storeKey root)), c.kind, c.j, c.toks.getLast?.getD ""))) (if isData then [] else [storeKey root]) []
   let specOK := specRefs.all (·.2.isSome)
   -- exclusion classes
   let refNodes := b.nodes.filter (fun n => n.ref.isSome && !n.copy && n.nat)
-  let stepOf (n : CNode) : StepR := stepGo fs rootData n.cx (n.ref.getD "") n.kind   -- evaluated at home
+  -- one step of every reference, evaluated at home (computed once)
+  let stepsAtHome : List StepR := refNodes.map (fun n => stepGo fs rootData tabs n.cx (n.ref.getD "") n.kind)
+  let stepOf (n : CNode) : StepR :=
+    let i := refNodes.findIdx (fun m => m.same n)
+    stepsAtHome[i]?.getD .fail
   let stepKey (r : StepR) : String := match r with
     | .node cx _ src ptr _ _ => s!"{repr cx}|{src}|{ptr}"
     | .fail => "fail" | .empty => "empty"
-  let textNotGlobal := refNodes.any (fun a => refNodes.any (fun c =>
-    a.ref == c.ref && a.kind == c.kind && stepKey (stepOf a) != stepKey (stepOf c)))
+  let keyed : List (CNode × String) := (refNodes.zip stepsAtHome).map (fun (n, r) => (n, stepKey r))
+  let textNotGlobal := keyed.any (fun (a, ka) => keyed.any (fun (c, kc) =>
+    a.ref == c.ref && a.kind == c.kind && ka != kc))
   -- a04fe6c: a callback that meets a value of another kind returns; when the load then succeeds the
   -- component of that callback may be left without value although its reference is of the wrong kind
   let kindClash := outcome == "ok" && nskip > 0
@@ -197,10 +203,9 @@ def handle (j : Json) : Json :=
   let specStepKey (n : CNode) : String :=
     match stepSpec fs rootData (if n.src = "" then none else some n.src) (n.ref.getD "") with
     | some (file, toks, v) =>
-      let docj := match file with | some u => fetch fs u | none => rootData
       let kindOK := match toks with
         | [] => true
-        | first :: _ => if knownTop.contains first then (docj.bind (fun d => typedKind d toks)) == some n.kind else true
+        | first :: _ => if knownTop.contains first then tabs.specKind file toks == some n.kind else true
       if isObj v && kindOK then s!"{file.getD ""}|{toks}" else "fail"
     | none => "fail"
   let goStepKey (n : CNode) : String := match stepOf n with
